@@ -5,4 +5,5 @@ CHECK_DEADLOCK FALSE
 CONSTANTS
   MaxLen = 4
   FullLen = 2
+  MidLen = 3
   MaxLists = 3
